@@ -31,7 +31,7 @@ func chanFieldOps(fn *ssa.Function, field string) (sends, recvs []ssa.Instructio
 func c16(c *Ctx) {
 	w := c.W
 	c.Explanation = "C16 (each backend flush request completes exactly once): for every type implementing gostatsd.Backend the completion callback is consumed exactly once on every control path of SendMetricsAsync (called, handed to exactly one goroutine that calls it once, or moved into a sender.Stream that is sent once); the socket sender never completes a stream twice and completes held/queued streams at shutdown; the flusher's WaitGroup matches one Done per callback; HTTP collectors pass every result and the cancellation error to the callback; request semaphores are released on every path."
-	c.NotDecided = []string{"timing of recovery", "that the error reported is the right one", "'a held stream is never overwritten' in sender.Run (relies on the nil-channel select idiom)"}
+	c.NotDecided = []string{"timing of recovery", "that the error reported is the right one"}
 
 	impls := backendImpls(w, "SendMetricsAsync")
 
@@ -195,6 +195,60 @@ func c16(c *Ctx) {
 				})
 			})
 			r.Check("Run:held-stream-cancellation-watched", okWatch, run.Pos(), "while reconnecting, a held stream's Ctx.Done() is one of the channels waited on (a carried-over stream can still be cancelled)")
+			// a held stream is never overwritten: wherever the loop can receive a new stream from the sink
+			// while reconnecting, the receive channel is nil on every path on which a stream is still held
+			nRecv, badRecv := 0, ""
+			eachInstr(run, func(in2 ssa.Instruction) {
+				sel, ok := in2.(*ssa.Select)
+				if !ok {
+					return
+				}
+				for _, st := range sel.States {
+					if st.Send != nil {
+						continue
+					}
+					ct, isChan := st.Chan.Type().Underlying().(*types.Chan)
+					if !isChan || !strings.HasSuffix(ct.Elem().String(), "sender.Stream") {
+						continue
+					}
+					nRecv++
+					isHeld := func(v ssa.Value) bool {
+						ld, ok := v.(*ssa.UnOp)
+						return ok && ld.Op == token.MUL && ld.X == ssa.Value(streamAlloc)
+					}
+					ph, isPhi := st.Chan.(*ssa.Phi)
+					if !isPhi || ph.Block() != sel.Block() {
+						// not chosen per path: then the whole select must be on the "nothing held" side
+						if !knownNil(factsAt(sel.Block()), isHeld) {
+							badRecv = "a stream is received from " + pathOf(st.Chan) + " where it is not known that none is held"
+						}
+						continue
+					}
+					checked := 0
+					for i, e := range ph.Edges {
+						pred := sel.Block().Preds[i]
+						facts := factsAt(pred)
+						if ifi, isIf := pred.Instrs[len(pred.Instrs)-1].(*ssa.If); isIf && len(pred.Succs) == 2 && pred.Succs[0] != pred.Succs[1] {
+							facts = append(facts, canonOf(Cond{ifi.Cond, pred.Succs[0] == sel.Block(), ifi}))
+						}
+						switch {
+						case knownNonNil(facts, isHeld):
+							checked++
+							if !isNilConst(e) {
+								badRecv = "with a stream held the sink channel is " + pathOf(e) + " (must be nil: a second stream would replace the held one, whose callback is then never called)"
+							}
+						case knownNil(facts, isHeld):
+							checked++
+						default:
+							badRecv = "the sink channel arrives over an edge on which it is not known whether a stream is held"
+						}
+					}
+					if checked == 0 {
+						badRecv = "the sink channel is not chosen by whether a stream is held"
+					}
+				}
+			})
+			r.Check("Run:held-stream-not-overwritten", nRecv >= 1 && badRecv == "", run.Pos(), "while reconnecting a new stream is accepted only when none is held "+badRecv)
 			// the deferred function completes a held stream
 			okDefer := false
 			for _, g := range WithAnon(run)[1:] {
